@@ -35,7 +35,9 @@ def element(node: AbbreviationNode, index: int, items: list, state: IndentWalkSt
     if should_format(node, index, items, state):
         out.push_newline(True)
 
-    if node.name and (node.name != 'div' or not primary):
+    # `div` may be omitted only when an id or class is actually written after it
+    has_primary = any(attr.value is not None for attr in primary)
+    if node.name and (node.name != 'div' or not has_primary):
         s = '%s%s%s' % (options.get('beforeName', ''), node.name, options.get('afterName', ''))
         out.push_string(s)
 
